@@ -24,6 +24,8 @@ def run(mid, checks=None, tier='quick', apply=False):
     patch = os.path.join(d, 'patch.diff')
     checks = checks or meta.get('expected_checks') or [meta['property']]
     env = dict(os.environ)
+    evdir = tempfile.mkdtemp(prefix='mutev_', dir='/tmp')
+    env['VERIF_EVIDENCE_DIR'] = evdir
     tree = None
     if apply:
         subprocess.check_call(['git', '-C', '/repo', 'apply', patch])
@@ -46,8 +48,7 @@ def run(mid, checks=None, tier='quick', apply=False):
         else:
             subprocess.call(['git', '-C', '/repo', 'worktree', 'remove', '--force', tree])
             shutil.rmtree(tree, ignore_errors=True)
-        # evidence files were rewritten by runs against a modified tree: restore the committed ones
-        subprocess.call(['git', '-C', VERIF, 'checkout', '--', 'evidence'])
+        shutil.rmtree(evdir, ignore_errors=True)
     out = {'mutant': mid, 'tier': tier, 'results': results, 'caught_by': sorted(c for c, r in results.items() if r['exit'] == 1 and r['violations'])}
     with open(os.path.join(d, 'result.json'), 'w') as f:
         json.dump(out, f, indent=1)
